@@ -1,0 +1,61 @@
+//go:build verif
+
+package cache
+
+import (
+	"encoding/json"
+	"errors"
+	"fmt"
+	"testing"
+
+	"github.com/gotid/god/internal/verifdrv"
+	"github.com/gotid/god/lib/hash"
+	"github.com/gotid/god/lib/store/redis"
+	"github.com/gotid/god/lib/syncx"
+)
+
+// TestVerifDriverC13 (property C13): the node a cache cluster built by New dispatches a key to must be the
+// node a consistent hash built directly from the configured (address, weight) pairs returns. No server is
+// contacted: only the dispatcher is consulted. got/ref are node indices (-1 = absent).
+func TestVerifDriverC13(t *testing.T) {
+	verifdrv.Run(t, func(raw json.RawMessage) any {
+		var c struct {
+			Weights []int    `json:"weights"`
+			Keys    []string `json:"keys"`
+		}
+		if err := json.Unmarshal(raw, &c); err != nil {
+			return map[string]any{"error": err.Error()}
+		}
+		conf := make(ClusterConfig, len(c.Weights))
+		index := map[string]int{}
+		ref := hash.NewConsistentHash()
+		for i, w := range c.Weights {
+			addr := fmt.Sprintf("10.13.%d.%d:6379", i/200, i%200+1)
+			conf[i] = NodeConfig{Config: redis.Config{Host: addr, Type: redis.NodeType}, Weight: w}
+			index[addr] = i
+			ref.AddWithWeight(addr, w)
+		}
+		built := New(conf, syncx.NewSingleFlight(), NewStat("verif"), errors.New("verif not found"))
+		got := make([]int, len(c.Keys))
+		want := make([]int, len(c.Keys))
+		cl, isCluster := built.(cluster)
+		for i, k := range c.Keys {
+			want[i] = -1
+			if v, ok := ref.Get(k); ok {
+				want[i] = index[v.(string)]
+			}
+			got[i] = -1
+			if !isCluster {
+				got[i] = 0 // a single configured node: New returns that node itself
+				if len(c.Weights) == 1 {
+					want[i] = 0
+				}
+				continue
+			}
+			if v, ok := cl.dispatcher.Get(k); ok {
+				got[i] = index[v.(node).rds.Addr]
+			}
+		}
+		return map[string]any{"got": got, "ref": want, "cluster": isCluster}
+	})
+}
